@@ -55,8 +55,9 @@ def C10():
                   "[-2p-1,2p+1] for p <= 61; compile-time Zp_field_element: 22 primes (2..47, 251, 257, 32749, 32771, 46337, 65519, "
                   "65521); refusal of every non-prime <= 1000 and 8 larger composites; Z_2 classes: all triples over 5 unsigned types; "
                   "multi-fields: every range [a,b] <= 48 with product <= 2310 (all x, all sub-products Q; all triples for P <= 35, all "
-                  "pairs for P <= 210) plus [2,13], [2,23], [3,29], [2,37], [2,100], [2,541], [65519,65539], [32749,32771] with "
-                  "boundary / structured operands where the class documents that size"),
+                  "pairs for P <= 210) plus [2,13], [2,23], [3,29], [3,30], [2,37], [2,47], [2,100], [2,541], [65519,65521], "
+                  "[65519,65539], [32749,32771] with boundary / structured operands wherever the product fits the element type (all "
+                  "three small run-time classes and the compile-time one up to P = 3234846615 >= 2^31)"),
         "thorough": ("as quick with all triples for p <= 211 (run-time classes, Field_Zp) and for the compile-time primes <= 257, all "
                      "pairs for every prime <= 1009, full conversion interval for p <= 257, boundary primes 32749, 32771, 46337, "
                      "65519, 65521; multi-fields: all triples for P <= 110 (GMP classes) / P <= 210 (native small classes), all pairs "
@@ -65,9 +66,10 @@ def C10():
     "assumptions": [
         "documented preconditions only: fused methods marked 'not overflow safe' are called only when the exact value fits the "
         "element type; signed raw integers are only used with types able to hold the characteristic; the small multi-field "
-        "operators / shared classes are only set to ranges whose squared product fits the documented type; elements do not "
+        "classes are set to every listed range whose product fits the element type (P < 2^32 for unsigned int, P >= 2^31 "
+        "included), their fused 'not overflow safe' methods only where the exact value fits; elements do not "
         "survive a change of a shared characteristic; inverse of 0 in a field is not compared",
-        "small scope: primes <= 1009 plus 5 boundary primes below 2^16; prime ranges with product <= 2310 plus 8 larger ones",
+        "small scope: primes <= 1009 plus 5 boundary primes below 2^16; prime ranges with product <= 2310 plus 11 larger ones",
         "non-default Unsigned_integer_type of the compile-time classes (Zp_field_element<p,U>, Multi_field_element_with_small_"
         "characteristics<a,b,U>): get_inverse, get_partial_inverse, the identities and get_partial_multiplicative_identity do not "
         "compile there (they name the default-type class), so those families are checked on constructors / conversions, "
